@@ -1,5 +1,6 @@
 import TypifyModel.Model.Enc
 import TypifyModel.Proofs.C05
+import TypifyModel.Proofs.FlattenFindings
 import TypifyModel.Proofs.Lemmas.ConvLemmas
 /-! # C05 at the level of the schema: what the generated type accepts is valid under the enforced projection
 
@@ -224,12 +225,13 @@ theorem fieldsE_mem {rec : Schema → Id → Bool} {σ : Space} {props : List (S
 
 /-- a member that is present was read by the member's type -/
 theorem deStruct_member {x : Serde.Ext} {σ : Space} {fd : Nat} {fields : List Field} {deny : Bool}
-    {kvs : List (String × Json)} {v : Val} (h : deStruct x σ (fd + 1) fields deny (.obj kvs) = .ok v) :
+    {kvs : List (String × Json)} {v : Val} (hfl : hasFlatten fields = false)
+    (h : deStruct x σ (fd + 1) fields deny (.obj kvs) = .ok v) :
     ∀ p ∈ fields, ∀ w, Json.lookup kvs p.wire = some w → ∃ a, de x σ fd p.ty w = .ok a := by
   intro p hp w hw
   simp only [deStruct] at h
   split at h
-  · simp at h
+  · rename_i hc; simp [hfl] at hc
   · split at h
     · simp at h
     · split at h
@@ -247,35 +249,164 @@ theorem find_mem_key {props : List (String × Schema)} {k : String} {q : String 
   have := List.find?_some h
   exact ⟨List.mem_of_find?_eq_some h, by simpa using this⟩
 
-/-- the three facts about an object read by a struct (or struct variant), pointwise -/
-theorem struct_points {x : Serde.Ext} {vx : Validate.Ext} {d : Doc} {σ : Space} {g : Nat} {rec : Schema → Id → Bool}
+/-- the step `deStruct` runs for a member that is read by name -/
+def nstep (x : Serde.Ext) (σ : Space) (f : Nat) (kvs : List (String × Json)) (p : Field) : Except E (String × Val) :=
+  match Json.lookup kvs p.wire with
+    | some v => (match de x σ f p.ty v with | .ok a => .ok (p.name, a) | .error e => .error e)
+    | none =>
+      match p.state with
+      | .required => if optionLikeT σ p.ty then .ok (p.name, Val.none) else .error .reject
+      | .optional => (match dflt x σ f p.ty with | .ok a => .ok (p.name, a) | .error e => .error e)
+      | .dflt dj => (match de x σ f p.ty dj with
+          | .ok a => .ok (p.name, a)
+          | .error .reject => .error .unsupported
+          | .error e => .error e)
+
+theorem nstep_required {x : Serde.Ext} {σ : Space} {f : Nat} {kvs : List (String × Json)} {p : Field} {b : String × Val}
+    (hb : nstep x σ f kvs p = .ok b) (hst : p.state = .required) (hopt : optionLikeT σ p.ty = false) :
+    (Json.lookup kvs p.wire).isSome = true := by
+  unfold nstep at hb
+  cases hl : Json.lookup kvs p.wire with
+  | some j => rfl
+  | none => rw [hl] at hb; simp only [hst] at hb; simp [hopt] at hb
+
+theorem nstep_member {x : Serde.Ext} {σ : Space} {f : Nat} {kvs : List (String × Json)} {p : Field} {b : String × Val}
+    (hb : nstep x σ f kvs p = .ok b) {w : Json} (hw : Json.lookup kvs p.wire = some w) : ∃ a, de x σ f p.ty w = .ok a := by
+  unfold nstep at hb
+  rw [hw] at hb
+  simp only at hb
+  split at hb
+  · rename_i a ha; exact ⟨a, ha⟩
+  · simp at hb
+
+/-- every named step of a successful `foldFields` succeeded -/
+theorem foldFields_named_ok {named : Field → Except E (String × Val)}
+    {flat : Field → List (String × Json) → Except E Val × List (String × Json)} :
+    ∀ (ps : List Field) (c : List (String × Json)) (fs : List (String × Val)) (rest : List (String × Json)),
+      foldFields named flat ps c = (.ok fs, rest) → ∀ p ∈ ps, p.rename ≠ .flatten → ∃ b, named p = .ok b := by
+  intro ps
+  induction ps with
+  | nil => intro _ _ _ _ p hp; simp at hp
+  | cons q ps ih =>
+    intro c fs rest h p hp hpf
+    simp only [foldFields] at h
+    split at h
+    · rename_i hq
+      cases hfq : flat q c with
+      | mk r c1 =>
+        rw [hfq] at h
+        cases r with
+        | error e => simp at h
+        | ok v =>
+          simp only at h
+          cases hrec : foldFields named flat ps c1 with
+          | mk r2 c2 =>
+            rw [hrec] at h
+            cases r2 with
+            | error e => simp at h
+            | ok rs =>
+              simp only [List.mem_cons] at hp
+              rcases hp with rfl | hp
+              · exact absurd (by simpa using hq) hpf
+              · exact ih c1 rs c2 hrec p hp hpf
+    · cases hnq : named q with
+      | error e => rw [hnq] at h; simp at h
+      | ok a =>
+        rw [hnq] at h
+        simp only at h
+        cases hrec : foldFields named flat ps c with
+        | mk r2 c2 =>
+          rw [hrec] at h
+          cases r2 with
+          | error e => simp at h
+          | ok rs =>
+            simp only [List.mem_cons] at hp
+            rcases hp with rfl | hp
+            · exact ⟨a, hnq⟩
+            · exact ih c rs c2 hrec p hp hpf
+
+/-- when no flattened member takes from the buffer, every flattened step of a successful `foldFields` succeeded on the
+    buffer it started with -/
+theorem foldFields_flat_ok {named : Field → Except E (String × Val)}
+    {flat : Field → List (String × Json) → Except E Val × List (String × Json)} :
+    ∀ (ps : List Field) (c : List (String × Json)) (fs : List (String × Val)) (rest : List (String × Json)),
+      (∀ p ∈ ps, p.rename = .flatten → ∀ c', (flat p c').2 = c') →
+      foldFields named flat ps c = (.ok fs, rest) → ∀ p ∈ ps, p.rename = .flatten → ∃ v, (flat p c).1 = .ok v := by
+  intro ps
+  induction ps with
+  | nil => intro _ _ _ _ _ p hp; simp at hp
+  | cons q ps ih =>
+    intro c fs rest hk h p hp hpf
+    have hk' : ∀ p ∈ ps, p.rename = .flatten → ∀ c', (flat p c').2 = c' := fun p hp => hk p (by simp [hp])
+    simp only [foldFields] at h
+    split at h
+    · rename_i hq
+      have hqf : q.rename = .flatten := by simpa using hq
+      have hkeep := hk q (by simp) hqf c
+      cases hfq : flat q c with
+      | mk r c1 =>
+        rw [hfq] at h hkeep
+        simp only at hkeep; subst hkeep
+        cases r with
+        | error e => simp at h
+        | ok v =>
+          simp only at h
+          cases hrec : foldFields named flat ps c1 with
+          | mk r2 c2 =>
+            rw [hrec] at h
+            cases r2 with
+            | error e => simp at h
+            | ok rs =>
+              simp only [List.mem_cons] at hp
+              rcases hp with rfl | hp
+              · exact ⟨v, by rw [hfq]⟩
+              · exact ih c1 rs c2 hk' hrec p hp hpf
+    · rename_i hq
+      cases hnq : named q with
+      | error e => rw [hnq] at h; simp at h
+      | ok a =>
+        rw [hnq] at h
+        simp only at h
+        cases hrec : foldFields named flat ps c with
+        | mk r2 c2 =>
+          rw [hrec] at h
+          cases r2 with
+          | error e => simp at h
+          | ok rs =>
+            simp only [List.mem_cons] at hp
+            rcases hp with rfl | hp
+            · exact absurd hpf (by simpa using hq)
+            · exact ih c rs c2 hk' hrec p hp hpf
+
+/-- the facts about the members read by name (`F`: all members of a plain struct, the non-flattened ones otherwise) -/
+theorem struct_points_core {x : Serde.Ext} {vx : Validate.Ext} {d : Doc} {σ : Space} {g : Nat} {rec : Schema → Id → Bool}
     (hrec : ∀ s' t' j' v' fd', rec s' t' = true → de x σ fd' t' j' = .ok v' → NF (validE vx d g s' j'))
-    {props : List (String × Schema)} {req : List String} {addl : Additional Schema} {fields : List Field} {deny : Bool}
-    (he : structE rec d σ props req addl fields deny = true)
-    {fd : Nat} {kvs : List (String × Json)} {v : Val} (hde : deStruct x σ (fd + 1) fields deny (.obj kvs) = .ok v) :
+    {props : List (String × Schema)} {req : List String} {opn : Bool} {F : List Field}
+    (hndp : nodupB (props.map (·.1)) = true)
+    (hall : props.all (fun q => F.any (fun p => p.wire == q.1)) = true)
+    (hfe : fieldsE rec σ props req opn F = true) (hreq : requiredFields d σ props F req = true)
+    {fd : Nat} {kvs : List (String × Json)}
+    (hR : ∀ p ∈ F, p.state = .required → optionLikeT σ p.ty = false → (Json.lookup kvs p.wire).isSome = true)
+    (hM : ∀ p ∈ F, ∀ w, Json.lookup kvs p.wire = some w → ∃ a, de x σ fd p.ty w = .ok a) :
     requiredE d props kvs req = true ∧
     (∀ k s, (k, s) ∈ props → ∀ w, Json.lookup kvs k = some w →
-      (w = .null ∧ req.contains k = false) ∨ NF (validE vx d g s w)) ∧
-    (∀ k w, (k, w) ∈ kvs → props.any (fun p => p.1 == k) = false → NF (extraHere (validE vx d g) addl w)) := by
-  simp only [structE, Bool.and_eq_true, Bool.not_eq_true'] at he
-  obtain ⟨⟨⟨⟨⟨⟨hnf, hndf⟩, hndp⟩, haddl⟩, hall⟩, hfe⟩, hreq⟩ := he
-  obtain ⟨hR, hD⟩ := C05.struct_object_enforced x σ fd fields deny kvs v hde
-  refine ⟨?_, ?_, ?_⟩
+      (w = .null ∧ req.contains k = false) ∨ NF (validE vx d g s w)) := by
+  refine ⟨?_, ?_⟩
   · simp only [requiredE, List.all_eq_true, Bool.or_eq_true]
     intro r hr
     simp only [requiredFields, List.all_eq_true] at hreq
     have h1 := hreq r hr
-    have present : ∀ p, fields.find? (fun p => p.wire == r) = some p →
+    have present : ∀ p, F.find? (fun p => p.wire == r) = some p →
         (match p.state with | .required => !optionLikeT σ p.ty | _ => false) = true →
         (Json.lookup kvs r).isSome = true := by
       intro p hff h1
-      have hpm : p ∈ fields := List.mem_of_find?_eq_some hff
+      have hpm : p ∈ F := List.mem_of_find?_eq_some hff
       have hpw : p.wire = r := by simpa using List.find?_some hff
       cases hst : p.state with
       | required =>
         rw [hst] at h1
         simp only [Bool.not_eq_true'] at h1
-        have := hR p hpm (by rw [hst]) h1
+        have := hR p hpm hst h1
         rw [hpw] at this; exact this
       | optional => rw [hst] at h1; simp at h1
       | dflt dv => rw [hst] at h1; simp at h1
@@ -289,7 +420,7 @@ theorem struct_points {x : Serde.Ext} {vx : Validate.Ext} {d : Doc} {σ : Space}
       left; exact present p hff h1
     · simp at h1
   · intro k s hks w hw
-    have hfield : ∃ p ∈ fields, p.wire = k := by
+    have hfield : ∃ p ∈ F, p.wire = k := by
       have := List.all_eq_true.mp hall (k, s) hks
       simpa using this
     obtain ⟨p, hp, hpw⟩ := hfield
@@ -300,7 +431,7 @@ theorem struct_points {x : Serde.Ext} {vx : Validate.Ext} {d : Doc} {σ : Space}
     · rw [hpw, hks'] at hnone; exact absurd hnone (by simp)
     rw [hpw, hks'] at hq
     simp only [Option.some.injEq] at hq; subst hq
-    obtain ⟨a, ha⟩ := deStruct_member hde p hp w (by rw [hpw]; exact hw)
+    obtain ⟨a, ha⟩ := hM p hp w (by rw [hpw]; exact hw)
     rcases hcase with hcase | ⟨t', ed, im, hg, hno, hnr, hrt⟩
     · exact Or.inr (hrec s p.ty w a fd hcase ha)
     · rw [hpw] at hnr
@@ -312,7 +443,27 @@ theorem struct_points {x : Serde.Ext} {vx : Validate.Ext} {d : Doc} {σ : Space}
         | succ fd' =>
           obtain ⟨v', hv'⟩ := de_option_nonnull hg hno hwn ha
           exact hrec s t' w v' fd' hrt hv'
-  · intro k w hkw hnot
+
+/-- the three facts about an object read by a struct (or struct variant), pointwise -/
+theorem struct_points {x : Serde.Ext} {vx : Validate.Ext} {d : Doc} {σ : Space} {g : Nat} {rec : Schema → Id → Bool}
+    (hrec : ∀ s' t' j' v' fd', rec s' t' = true → de x σ fd' t' j' = .ok v' → NF (validE vx d g s' j'))
+    {props : List (String × Schema)} {req : List String} {addl : Additional Schema} {fields : List Field} {deny : Bool}
+    (he : structE rec d σ props req addl fields deny = true)
+    {fd : Nat} {kvs : List (String × Json)} {v : Val} (hde : deStruct x σ (fd + 1) fields deny (.obj kvs) = .ok v) :
+    requiredE d props kvs req = true ∧
+    (∀ k s, (k, s) ∈ props → ∀ w, Json.lookup kvs k = some w →
+      (w = .null ∧ req.contains k = false) ∨ NF (validE vx d g s w)) ∧
+    (∀ k w, (k, w) ∈ kvs → props.any (fun p => p.1 == k) = false → NF (extraHere (validE vx d g) addl w)) := by
+  simp only [structE, Bool.or_eq_true] at he
+  rcases he with he | he
+  · -- no flattened member
+    simp only [structPlainE, Bool.and_eq_true, Bool.not_eq_true'] at he
+    obtain ⟨⟨⟨⟨⟨⟨hnf, hndf⟩, hndp⟩, haddl⟩, hall⟩, hfe⟩, hreq⟩ := he
+    obtain ⟨hR, hD⟩ := C05.struct_object_enforced x σ fd fields deny kvs v hnf hde
+    obtain ⟨h1, h2⟩ := struct_points_core hrec hndp hall hfe hreq (fd := fd) (kvs := kvs)
+      (fun p hp hst hopt => hR p hp (by rw [hst]) hopt) (deStruct_member hnf hde)
+    refine ⟨h1, h2, ?_⟩
+    intro k w hkw hnot
     cases addl with
     | open_ => simp [extraHere, NF]
     | schema sv => simp at haddl
@@ -326,6 +477,87 @@ theorem struct_points {x : Serde.Ext} {vx : Validate.Ext} {d : Doc} {σ : Space}
         simp only [List.any_eq_true]
         exact ⟨q, hqm, by simp [hqk, hpw]⟩
       rw [this] at hnot; exact absurd hnot (by simp)
+  · -- `additionalProperties: <schema>`: named members plus one flattened map
+    simp only [structFlatE, Bool.and_eq_true] at he
+    obtain ⟨⟨⟨⟨⟨haddl, hndf⟩, hndp⟩, hall⟩, hfe⟩, hreq⟩ := he
+    cases addl with
+    | open_ => simp at haddl
+    | closed => simp at haddl
+    | schema sa =>
+      simp only at haddl
+      split at haddl
+      · rename_i e hfe'
+        split at haddl
+        · rename_i k vt ed' im' hge
+          simp only [Bool.and_eq_true] at haddl
+          obtain ⟨hk, hsa⟩ := haddl
+          split at hk
+          · rename_i edk imk hgk
+            have hemem : e ∈ fields.filter (fun p => p.rename == .flatten) := by rw [hfe']; simp
+            simp only [List.mem_filter] at hemem
+            have hefl : hasFlatten fields = true := List.any_eq_true.mpr ⟨e, hemem.1, hemem.2⟩
+            simp only [deStruct, hefl, if_true] at hde
+            split at hde
+            · simp at hde
+            · rename_i fs rest hfold
+              have hfold' : foldFields (nstep x σ fd kvs) (fun (p : Field) c => deFlat x σ fd p.ty c) fields
+                  (bufferOf fields kvs) = (.ok fs, rest) := hfold
+              have hnamed : ∀ p ∈ Conv.namedOf fields, ∃ b, nstep x σ fd kvs p = .ok b := by
+                intro p hp
+                simp only [Conv.namedOf, List.mem_filter, bne_iff_ne, ne_eq] at hp
+                exact foldFields_named_ok fields _ fs rest hfold' p hp.1 hp.2
+              obtain ⟨h1, h2⟩ := struct_points_core hrec hndp hall hfe hreq (fd := fd) (kvs := kvs)
+                (fun p hp hst hopt => by obtain ⟨b, hb⟩ := hnamed p hp; exact nstep_required hb hst hopt)
+                (fun p hp w hw => by obtain ⟨b, hb⟩ := hnamed p hp; exact nstep_member hb hw)
+              refine ⟨h1, h2, ?_⟩
+              intro key w hkw hnot
+              simp only [extraHere]
+              -- the member is in the buffer: no named member claims it
+              have hbuf : (key, w) ∈ bufferOf fields kvs := by
+                simp only [bufferOf, List.mem_filter, Bool.not_eq_true', List.any_eq_false, Bool.and_eq_true,
+                  bne_iff_ne, ne_eq, beq_iff_eq, not_and]
+                refine ⟨hkw, ?_⟩
+                intro p hp hpf hpw
+                have hpn : p ∈ Conv.namedOf fields := by
+                  simp only [Conv.namedOf, List.mem_filter, bne_iff_ne, ne_eq]; exact ⟨hp, hpf⟩
+                rcases fieldsE_mem hfe p hpn with ⟨_, hopn⟩ | ⟨q, hq, _⟩
+                · exact absurd hopn (by simp)
+                · obtain ⟨hqm, hqk⟩ := find_mem_key hq
+                  have : props.any (fun p => p.1 == key) = true := by
+                    simp only [List.any_eq_true]
+                    exact ⟨q, hqm, by simp [hqk, hpw]⟩
+                  rw [this] at hnot; exact absurd hnot (by simp)
+              -- the flattened map read it
+              have hkeep : ∀ p ∈ fields, p.rename = .flatten → ∀ c', ((fun (p : Field) c => deFlat x σ fd p.ty c) p c').2 = c' := by
+                intro p hp hpf c'
+                have hpe : p = e := by
+                  have : p ∈ fields.filter (fun p => p.rename == .flatten) := by
+                    simp only [List.mem_filter]; exact ⟨hp, by simp [hpf]⟩
+                  rw [hfe'] at this; simpa using this
+                subst hpe
+                exact Flatten.flat_map_keeps x σ hge fd c'
+              obtain ⟨vm, hvm⟩ := foldFields_flat_ok fields _ fs rest hkeep hfold' e hemem.1 (by simpa using hemem.2)
+              cases fd with
+              | zero => simp [deFlat] at hvm
+              | succ fd' =>
+                simp only [deFlat, hge] at hvm
+                cases fd' with
+                | zero => simp [de] at hvm
+                | succ fd'' =>
+                  simp only [de, hge] at hvm
+                  split at hvm
+                  · rename_i es hes
+                    obtain ⟨b, hb⟩ := C05.mapM'_mem hes (key, w) hbuf
+                    simp only at hb
+                    cases hvw : de x σ fd'' vt w with
+                    | ok vv => exact hrec sa vt w vv fd'' hsa hvw
+                    | error e' =>
+                      rw [hvw] at hb
+                      split at hb <;> simp_all
+                  · simp at hvm
+          · simp at hk
+        · simp at haddl
+      · simp at haddl
 
 /-- **objects**: required members, closed objects, and the members' own schemas -/
 theorem struct_sound {x : Serde.Ext} {vx : Validate.Ext} {d : Doc} {σ : Space} {g : Nat} {rec : Schema → Id → Bool}
@@ -340,11 +572,11 @@ theorem struct_sound {x : Serde.Ext} {vx : Validate.Ext} {d : Doc} {σ : Space} 
     simp only [validE]
     exact and3_NF (by simp [hR, NF]) (and3_NF (declaredE_NF hD) (extraE_NF hX))
   | arr xs => simp [validE, NF]
-  | null => simp [deStruct] at hde; split at hde <;> simp at hde
-  | bool b => simp [deStruct] at hde; split at hde <;> simp at hde
-  | int n => simp [deStruct] at hde; split at hde <;> simp at hde
-  | flt m e => simp [deStruct] at hde; split at hde <;> simp at hde
-  | str t => simp [deStruct] at hde; split at hde <;> simp at hde
+  | null => simp [deStruct] at hde; try (split at hde <;> simp at hde)
+  | bool b => simp [deStruct] at hde; try (split at hde <;> simp at hde)
+  | int n => simp [deStruct] at hde; try (split at hde <;> simp at hde)
+  | flt m e => simp [deStruct] at hde; try (split at hde <;> simp at hde)
+  | str t => simp [deStruct] at hde; try (split at hde <;> simp at hde)
 
 theorem strEnc_sound {x : Serde.Ext} {vx : Validate.Ext} (hreg : ∀ p s, x.regex p s = vx.regex p s)
     {smn smx : Option Nat} {spat : Option String} {tmx tmn : Option Nat} {tpat : Option String} {s : String} :
